@@ -97,8 +97,20 @@ class _Rev:
     def __lt__(self, o):
         return o.v < self.v
 
+    def __gt__(self, o):
+        return o.v > self.v
+
+    def __le__(self, o):
+        return o.v <= self.v
+
+    def __ge__(self, o):
+        return o.v >= self.v
+
     def __eq__(self, o):
         return isinstance(o, _Rev) and o.v == self.v
+
+    def __hash__(self):
+        return hash(self.v)
 
 
 def _sortable(v):
@@ -273,6 +285,8 @@ class PEval:
     def __init__(self, lib, an, hook=None, max_depth=16, fuel=50000):
         self.lib, self.an, self.hook = lib, an, hook
         self.max_depth, self.fuel = max_depth, fuel
+        self._impl_cache = {}
+        self._accessor_copies = False
         self.unknown_reasons = []
 
     # -------------------------------------------------------------------------------------------------
@@ -816,6 +830,16 @@ class PEval:
             r = self.hook(self, path, fname, [deref(a) for a in args], node)
             if r is not NotImplemented:
                 return r
+        # tuple-variant / tuple-struct constructors used as functions (`.map(Some)`, `.map(Statement::Call)`)
+        if path in ("core::option::Option::Some", "core::result::Result::Ok", "core::result::Result::Err") and len(args) == 1:
+            return {"Some": some, "Ok": ok, "Err": err}[fname](deref(args[0]))
+        if "::" in path and not path.startswith("<") and self.lib.fn(path) is None:
+            owner = path.rsplit("::", 1)[0]
+            adt_ = self.lib.adts.get(owner)
+            if adt_ is not None and adt_.get("kind") == "enum":
+                for v_ in adt_.get("variants", []):
+                    if v_["name"] == fname and len(v_["fields"]) == len(args) and all(f["name"].isdigit() for f in v_["fields"]):
+                        return Enum(owner, fname, {str(i_): deref(a) if not isinstance(deref(a), (str, int, bool)) else deref(a) for i_, a in enumerate(args)})
         if path.startswith("log::") or path.startswith("<log::"):
             # `log::trace!(..)` and friends: logging is switched off in the model (`lvl <= STATIC_MAX_LEVEL` is false)
             return False if fname in ("le", "lt", "ge", "gt", "eq", "enabled", "log_enabled") else (Struct("#log", {}) if fname == "max_level" else UNIT)
@@ -862,6 +886,13 @@ class PEval:
             if isinstance(recv, (Struct, Enum)) and "::" in path and not recv.adt.startswith("#"):
                 tr, meth = path.rsplit("::", 1)
                 cand = self.lib.fn("<%s as %s>::%s" % (recv.adt, tr, meth))
+                if cand is None:
+                    # impls on a type with generic / lifetime parameters: `<T<'_> as Trait>::m`
+                    pre, suf = "<" + recv.adt + "<", " as %s>::%s" % (tr, meth)
+                    key = (pre, suf)
+                    if key not in self._impl_cache:
+                        self._impl_cache[key] = next((f for k_, f in self.lib.fns.items() if k_.startswith(pre) and k_.endswith(suf)), None)
+                    cand = self._impl_cache[key]
                 if cand is not None and thir.body_of(cand):
                     local, path = cand, cand["path"]
             if local is None and "::" in path and not isinstance(recv, (Struct, Enum)):
@@ -958,8 +989,14 @@ class PEval:
                     return old
                 return self.unknown("mem::%s of this value" % fname)
         # ---- format!(..) ------------------------------------------------------------------------------
-        if "fmt::rt::Argument" in path and fname in ("new_display",) and len(args) == 1:
-            return Struct("#FmtArg", {"v": a0})
+        if "fmt::rt::Argument" in path and fname.startswith("new_") and len(args) == 1:
+            ty = ""
+            if node is not None and node.get("gargs"):
+                try:
+                    ty = self.lib.ty_str(self.lib.strip_refs(node["gargs"][0]))
+                except Exception:
+                    ty = ""
+            return Struct("#FmtArg", {"v": a0, "kind": fname[4:], "ty": ty})
         if "fmt::Arguments" in path and fname == "new" and len(args) == 2 and isinstance(a0, list):
             return Struct("#FmtArgs", {"template": a0, "args": args[1]})
         if "fmt::Arguments" in path and fname in ("from_str", "new_const") and len(args) == 1:
@@ -972,23 +1009,46 @@ class PEval:
                 return a0.fields["text"]
             t, fa_ = a0.fields["template"], a0.fields["args"]
             fa_ = fa_.rest() if isinstance(fa_, Iter) else fa_
+            if not isinstance(fa_, list):
+                return self.unknown("format! arguments")
             out, i, k = [], 0, 0
+            # the template encoding documented in core::fmt (library/core/src/fmt/mod.rs, `struct Arguments`)
             while i < len(t):
                 b = t[i]
+                i += 1
                 if b == 0:
                     break
-                if b < 128:
-                    out.append(bytes(t[i + 1:i + 1 + b]).decode("utf-8", "replace"))
-                    i += 1 + b
-                elif b == 192 and isinstance(fa_, list) and k < len(fa_) and isinstance(fa_[k], Struct):
-                    v = deref(fa_[k].fields.get("v"))
-                    if isinstance(v, bool) or not isinstance(v, (str, int)):
-                        return self.unknown("format! of a value that is not text")
-                    out.append(str(v))
-                    k += 1
-                    i += 1
-                else:
-                    return self.unknown("format! placeholder with options")
+                if b < 0x80:
+                    out.append(bytes(t[i:i + b]).decode("utf-8", "replace"))
+                    i += b
+                    continue
+                if b == 0x80:
+                    ln_ = t[i] | (t[i + 1] << 8)
+                    out.append(bytes(t[i + 2:i + 2 + ln_]).decode("utf-8", "replace"))
+                    i += 2 + ln_
+                    continue
+                flags, width, prec = 0x20 | (3 << 29), None, None
+                if b & 1:
+                    flags = t[i] | (t[i + 1] << 8) | (t[i + 2] << 16) | (t[i + 3] << 24)
+                    i += 4
+                if b & 2:
+                    width = t[i] | (t[i + 1] << 8)
+                    i += 2
+                if b & 4:
+                    prec = t[i] | (t[i + 1] << 8)
+                    i += 2
+                if b & 8:
+                    k = t[i] | (t[i + 1] << 8)
+                    i += 2
+                if b & 16 or b & 32:
+                    return self.unknown("format! with a run-time width/precision")
+                if not (k < len(fa_) and isinstance(fa_[k], Struct) and fa_[k].adt == "#FmtArg"):
+                    return self.unknown("format! argument")
+                piece = self.format_one(fa_[k], flags, width if flags & (1 << 27) or b & 2 else None, prec if flags & (1 << 28) or b & 4 else None)
+                if piece is None:
+                    return self.unknown("format! of a value that is not text")
+                out.append(piece)
+                k += 1
             return "".join(out)
         if path.startswith("core::iter::sources::"):
             if fname == "once" and len(args) == 1:
@@ -1092,6 +1152,8 @@ class PEval:
                 a0.extend(other)
                 return UNIT
             return self.unknown("extend with unknown iterable")
+        if isinstance(a0, list) and fname == "repeat" and len(args) == 2 and isinstance(args[1], int) and "slice" in path:
+            return list(a0) * args[1]
         if isinstance(a0, list) and fname == "insert" and len(args) == 3 and isinstance(args[1], int):
             a0.insert(args[1], args[2])
             return UNIT
@@ -1161,6 +1223,11 @@ class PEval:
             return self.binop(fname.capitalize(), args[0], args[1])
         if fname == "cmp" and len(args) == 2 and (all(isinstance(x, int) for x in args) or all(isinstance(x, str) for x in args)):
             return ordering(args[0], args[1])
+        if fname == "index_mut" and len(args) == 2 and isinstance(a0, list) and isinstance(args[1], int) and "ops::index" in path:
+            if not 0 <= args[1] < len(a0):
+                return self.unknown("index out of range")
+            x_ = a0[args[1]]
+            return x_ if isinstance(x_, (Struct, Enum, list, PyMap, PySet)) else Ref(a0, args[1])
         if fname == "index" and len(args) == 2 and isinstance(a0, list) and isinstance(args[1], int) and "ops::index" in path:
             return a0[args[1]] if 0 <= args[1] < len(a0) else self.unknown("index out of range")
         if isinstance(a0, Enum) and a0.adt == RESULT:
@@ -1422,11 +1489,15 @@ class PEval:
                 return a0[::args[1]]
             if fname == "nth" and len(args) == 2 and isinstance(args[1], int):
                 return some(a0[args[1]]) if 0 <= args[1] < len(a0) else NONE
-            if fname in ("min_by_key", "max_by_key") and len(args) == 2 and a0:
+            if fname in ("min_by_key", "max_by_key") and len(args) == 2:
+                if not a0:
+                    return NONE
                 try:
-                    keyed = [(self.apply(args[1], [x], depth), x) for x in a0]
-                    pick = min if fname == "min_by_key" else max
-                    return some(pick(keyed, key=lambda kv: kv[0])[1])
+                    keyed = [(_sortable(self.apply(args[1], [x], depth)), x) for x in a0]
+                    # std: min_by_key returns the first minimum, max_by_key the last maximum
+                    if fname == "min_by_key":
+                        return some(min(keyed, key=lambda kv: kv[0])[1])
+                    return some(max(reversed(keyed), key=lambda kv: kv[0])[1])
                 except TypeError:
                     return self.unknown("%s key" % fname)
             if fname == "find_map" and len(args) == 2:
@@ -1527,6 +1598,64 @@ class PEval:
                 return a0
         return self.unknown("call %s" % (path or fname))
 
+    def format_one(self, arg, flags, width, prec):
+        """Text of one `{}` placeholder for integers, chars, text and booleans (None: not modelled, e.g. floats)."""
+        v, kind, ty = deref(arg.fields.get("v")), arg.fields.get("kind", "display"), arg.fields.get("ty", "")
+        fill = chr(flags & 0x1FFFFF)
+        align = (flags >> 29) & 3
+        zero, plus, alt = bool(flags & (1 << 24)), bool(flags & (1 << 21)), bool(flags & (1 << 23))
+        numeric = False
+        if isinstance(v, bool):
+            if kind not in ("display", "debug"):
+                return None
+            body = "true" if v else "false"
+        elif isinstance(v, int):
+            if ty == "char":
+                if kind != "display":
+                    return None
+                body = chr(v)
+            else:
+                numeric = True
+                neg, mag = v < 0, abs(v)
+                if kind in ("display", "debug"):
+                    digits, prefix = str(mag), ""
+                elif kind == "lower_hex":
+                    digits, prefix = "%x" % mag, "0x" if alt else ""
+                elif kind == "upper_hex":
+                    digits, prefix = "%X" % mag, "0x" if alt else ""
+                elif kind == "binary":
+                    digits, prefix = bin(mag)[2:], "0b" if alt else ""
+                elif kind == "octal":
+                    digits, prefix = oct(mag)[2:], "0o" if alt else ""
+                else:
+                    return None
+                if neg and kind not in ("display", "debug"):
+                    return None
+                sign = "-" if neg else ("+" if plus else "")
+                if zero and width is not None:
+                    digits = digits.rjust(max(0, width - len(sign) - len(prefix)), "0")
+                    return sign + prefix + digits
+                body = sign + prefix + digits
+        elif isinstance(v, str):
+            if kind != "display":
+                return None
+            body = str(v)
+            if prec is not None:
+                body = body[:prec]
+        else:
+            return None
+        if width is not None and len(body) < width:
+            pad = width - len(body)
+            if align == 3:
+                align = 1 if numeric else 0
+            if align == 0:
+                body = body + fill * pad
+            elif align == 1:
+                body = fill * pad + body
+            else:
+                body = fill * (pad // 2) + body + fill * (pad - pad // 2)
+        return body
+
     # ---- std::path (Unix), see sa/pathmodel.py -------------------------------------------------------
     def std_paths(self, path, fname, rargs, args, a0, node, depth):
         from . import pathmodel as pm
@@ -1573,6 +1702,12 @@ class PEval:
                 not ("os_str::OsStr" in static_ty(0) and "os_str::OsStr" in static_ty(1)):
             same = pm.components(a0) == pm.components(args[1])
             return same if fname == "eq" else not same
+        # collecting pieces into an OsString: concatenation
+        if fname in ("from_iter", "collect") and len(args) == 1 and ret_t == "std::ffi::os_str::OsString" and isinstance(a0, (list, Iter)):
+            parts = [text_of(x) for x in (a0.rest() if isinstance(a0, Iter) else a0)]
+            if any(t is None for t in parts):
+                return self.unknown("OsString built from a value that is not text")
+            return "".join(parts)
         # collecting components / names into a PathBuf
         if fname in ("from_iter", "collect") and len(args) == 1 and ret_t == "std::path::PathBuf" and isinstance(a0, (list, Iter)):
             buf = ""
